@@ -25,10 +25,12 @@ RULE = ("seeded histories of 1-12 calls over two parsers drawn from: config argu
         "(optional/required, with their own config argument); "
         "dict-like sources give class options as class_path + init_args or init_args alone, and d as a partial mapping; calls: "
         "parse_args (valid, invalid value, unknown option, bad print_config flag, --help, --print_config[=flags] before/"
-        "after a failure, inside a sub-command, before a --cfg, class help with and without trailing arguments, unknown "
-        "sub-command, empty --cfg), parse_object / parse_string / parse_env (valid, invalid, unknown key, missing required, key "
+        "after a failure, inside a sub-command, before a --cfg, class help with and without trailing arguments, with a "
+        "value (one item or two) and without a value, unknown sub-command, empty --cfg; called with the keywords "
+        "env=None/True/False and defaults=True/False, with an argument list or through sys.argv), parse_object / parse_string / parse_env (valid, invalid, unknown key, missing required, key "
         "print_shtab), get_defaults, dump (flag combinations, corrupted cfg), validate (ok / corrupted), "
-        "instantiate_classes; every prefix of every history is one case (state before, call, state after, fresh answer); "
+        "instantiate_classes; every fifth history with a Base-typed option additionally gets help / class_path that imports "
+        "c09_extra / help on both parsers (known subclasses grow in mid-history); every prefix of every history is one case (state before, call, state after, fresh answer); "
         "a case is non-trivial when the history prefix is non-empty; distinct = distinct (declarations, prefix, call)")
 TRUSTED = [
     "Coq 8.16.1 kernel + vm_compute",
@@ -46,6 +48,9 @@ ASSUMPTIONS = [
     "parameters are only given after their class in the same argv; dict-like sources name a class only by its name",
     "answers are compared through a digest: equality of digests is taken for equality of answers",
     "single thread, single contextvars.Context per history",
+    "parse_args(defaults=False) is only generated for parsers without parse-time links and for command lines without "
+    "--print_config; env=True is generated with a process environment that holds no variable of the parser's prefix "
+    "(the keywords then show in the carried parse_kwargs variable and, per the model, in how a sub-command is parsed)",
     "the fresh reference of a step runs in a pristine process that first imports the harness modules (c09_*) the "
     "re-used side had imported before that step: import state is environment (it changes the known-subclasses list of "
     "help texts), not state of jsonargparse",
@@ -250,9 +255,15 @@ def gen_argv(rng, decl):
             elif y < 0.7:
                 toks.append(["opt", cn + ".a", val_for(rng, "int")])
             else:
-                toks.append(["opt", cn + ".help", cls])
-                if rng.random() < 0.45:
-                    toks.append(["opt", cn + "." + rng.choice(["a", "c", "zz"]), "3"])
+                if rng.random() < 0.3:   # --<cls>.help without a value: the help of the type itself
+                    toks.append(["flag", cn + ".help"])
+                    for _ in range(rng.choice([0, 0, 1, 2])):
+                        toks.append(rng.choice([["opt", cn + "." + rng.choice(["a", "c", "zz"]), "3"], ["opt", "k", "2"],
+                                                ["flag", "help"], ["opt", cn + ".a", "bad"]]))
+                else:
+                    toks.append(["opt", cn + ".help", cls])
+                    if rng.random() < 0.45:
+                        toks.append(["opt", cn + "." + rng.choice(["a", "c", "zz"]), "3"])
                 break
         elif x < 0.78:
             toks.append(["flag", "help"])
@@ -280,7 +291,7 @@ def gen_argv(rng, decl):
             seen_cfg_d = True
         kept.append(t)
     toks = kept
-    if any(t[0] == "opt" and t[1].endswith(".help") for t in toks):
+    if any(t[0] in ("opt", "flag") and t[1].endswith(".help") for t in toks):
         return toks
     if decl["subs"]:
         x = rng.random()
@@ -350,7 +361,7 @@ def gen_op(rng, decls):
     d = decls[p]
     x = rng.random()
     if x < 0.5:
-        return {"p": p, "op": "parse_args", "argv": gen_argv(rng, d)}
+        return with_call_style(rng, d, {"p": p, "op": "parse_args", "argv": gen_argv(rng, d)})
     if x < 0.6:
         return {"p": p, "op": "parse_object", "items": gen_items(rng, d, False)}
     if x < 0.68:
@@ -367,6 +378,29 @@ def gen_op(rng, decls):
     if x < 0.96:
         return {"p": p, "op": "validate", "items": gen_items(rng, d, True), "corrupt": rng.random() < 0.3}
     return {"p": p, "op": "instantiate", "items": gen_items(rng, d, True)}
+
+
+def no_defaults_ok(decl):
+    """parse_args(defaults=False) is generated for parsers without parse-time links (a link whose source has no value
+    fails with "Key ... not found in namespace": nothing to do with histories)"""
+    return not decl["root"].get("lk") and not decl["root"].get("links") and not decl["root"].get("nl")
+
+
+def with_call_style(rng, decl, op):
+    """how a parse_args call is made: keywords env= / defaults=, the command line taken from sys.argv, class
+    a class help written as two items"""
+    argv = op["argv"]
+    if rng.random() < 0.22:
+        dflt = rng.random() < 0.45 or not no_defaults_ok(decl)
+        has_pc = any(t[0] in ("flag", "opt") and t[1] == "print_config" for t in argv)
+        if has_pc:
+            dflt = True
+        op["kw"] = [rng.choice([None, True, False]), dflt]
+    if rng.random() < 0.12:
+        op["sysargv"] = True
+    if rng.random() < 0.35 and any(t[0] == "opt" and t[1].endswith(".help") for t in argv):
+        op["sep"] = True
+    return op
 
 
 SCRIPTED = [
@@ -548,11 +582,45 @@ def scripted_cases():
         {"p": 1, "op": "parse_args", "argv": [["opt", "print_config", "skip_null"], ["cfg", [["k", "2"]]]]},
         {"p": 0, "op": "parse_env", "items": []},
         {"p": 0, "op": "parse_args", "argv": [["flag", "print_config"]]}]))
+    # the keywords of parse_args (stored in the parse_kwargs context variable, read by the sub-command action), the
+    # command line from sys.argv, class helps without a value / as two items / with and without trailing arguments
+    hs.append(([subs, cb], [
+        {"p": 0, "op": "parse_args", "argv": [["opt", "k", "2"], ["pos", "fit"], ["opt", "lr", "3"]], "kw": [True, False]},
+        {"p": 0, "op": "parse_args", "argv": [["pos", "fit"]]},
+        {"p": 0, "op": "parse_args", "argv": [["pos", "test"]], "kw": [None, False]},
+        {"p": 1, "op": "parse_args", "argv": [["opt", "k", "2"]], "kw": [False, False]},
+        {"p": 0, "op": "parse_args", "argv": [["pos", "fit"], ["opt", "lr", "7"]], "sysargv": True},
+        {"p": 0, "op": "parse_args", "argv": [["flag", "model.help"]]},
+        {"p": 0, "op": "parse_args", "argv": [["opt", "model.help", "SubA"], ["opt", "model.a", "3"]], "sep": True},
+        {"p": 0, "op": "parse_args", "argv": [["opt", "model.help", "SubA"]]},
+        {"p": 0, "op": "parse_args", "argv": [["flag", "model.help"], ["opt", "k", "2"], ["opt", "model.a", "3"]]},
+        {"p": 1, "op": "parse_args", "argv": [["flag", "cb.help"]]},
+        {"p": 0, "op": "parse_args", "argv": [["opt", "model", "SubB"], ["opt", "model.b", "q"]], "kw": [None, False]}]))
     hs.append(([cb, subs], [
         {"p": 0, "op": "parse_args", "argv": [["opt", "cb.help", "SubA"]]},
         {"p": 1, "op": "parse_args", "argv": [["opt", "model.help", "SubA"]]},
         {"p": 1, "op": "parse_args", "argv": [["opt", "model.help", "SubA"], ["opt", "model.a", "3"]]}]))
     return hs
+
+
+def mid_history_import(rng, decls, ops):
+    """Every fifth history (where a parser has a Base-typed option) gets: a help-printing call, later a call whose
+    class_path imports c09_extra (the set of known subclasses grows in mid-history), later help-printing calls on
+    both parsers.  Anything that remembers the subclasses seen by an earlier call shows in the later help texts."""
+    cands = [(p, co) for p, d in enumerate(decls) for co in d["root"]["cls"] if co3(co)[2] == "Base"]
+    if not cands or rng.random() >= 0.2:
+        return ops
+    p, co = rng.choice(cands)
+    ops = ops[:8]
+    imp = rng.choice([{"p": p, "op": "parse_args", "argv": [["opt", co[0], EXTRA]]},
+                      {"p": p, "op": "parse_object", "items": [[co[0], EXTRA]]},
+                      {"p": p, "op": "parse_string", "items": [[co[0], EXTRA], [co[0] + ".x", "3"]]}])
+    helps = [{"p": q, "op": "parse_args", "argv": [["flag", "help"]]} for q in (0, 1)]
+    i = rng.randrange(len(ops) + 1)
+    j = rng.randrange(i, len(ops) + 1)
+    first = [rng.choice(helps)] if rng.random() < 0.7 else []
+    last = helps if rng.random() < 0.5 else [rng.choice(helps)]
+    return ops[:i] + first + ops[i:j] + [imp] + ops[j:] + last
 
 
 def generate(rng, tier):
@@ -561,7 +629,7 @@ def generate(rng, tier):
     for _ in range(n):
         decls = [gen_decl(rng), gen_decl(rng)]
         ln = rng.choice([1, 2, 3, 4, 6, 8, 10, 12, 12])
-        hists.append((decls, [gen_op(rng, decls) for _ in range(ln)]))
+        hists.append((decls, mid_history_import(rng, decls, [gen_op(rng, decls) for _ in range(ln)])))
     cases = []
     for decls, ops in hists:
         for i in range(len(ops)):
@@ -580,7 +648,7 @@ def search(rng, tier, broken):
     for _ in range(110):
         decls = [gen_decl(rng), gen_decl(rng)]
         ln = rng.choice([2, 3, 4, 6, 8, 10])
-        hists.append((decls, [gen_op(rng, decls) for _ in range(ln)]))
+        hists.append((decls, mid_history_import(rng, decls, [gen_op(rng, decls) for _ in range(ln)])))
     cases = [{"parsers": d, "ops": ops, "at": i} for d, ops in hists for i in range(1, len(ops))]
     obs = observe(cases)
     _, bad_in, bad_out = framework.judge_cases(mod, cases, obs, tag="x")
@@ -677,7 +745,10 @@ def cfg_d(items):
 
 def g_op(o):
     k = o["op"]
-    if k == "parse_args":
+    if k == "parse_args" and o.get("kw"):
+        body = "(PArgsKw %s %s %s)" % (g_opt(None if o["kw"][0] is None else g_bool(o["kw"][0])), g_bool(o["kw"][1]),
+                                       g_toks(o["argv"]))
+    elif k == "parse_args":
         body = "(PArgs %s)" % g_toks(o["argv"])
     elif k == "parse_object":
         body = "(PObject %s)" % g_items(o["items"])
@@ -774,7 +845,8 @@ def category(case, obs):
 
 def show_op(o):
     if o["op"] == "parse_args":
-        return "P%d.parse_args(%s)" % (o["p"], json.dumps(o["argv"]))
+        style = {k: o[k] for k in ("kw", "sysargv", "sep") if o.get(k)}
+        return "P%d.parse_args(%s%s)" % (o["p"], json.dumps(o["argv"]), (" " + json.dumps(style)) if style else "")
     rest = {k: v for k, v in o.items() if k not in ("p", "op")}
     return "P%d.%s(%s)" % (o["p"], o["op"], json.dumps(rest) if rest else "")
 
@@ -825,7 +897,12 @@ META = {
         "absent (invariants: with the print_config repair no request is pending after any call, with the dataclass repair "
         "nothing is ever stored); C09_repaired_history_independent: the model of the tree with the four repairs satisfies "
         "the full statement with no guard. C09_other_parser_untouched: a call never changes what another parser carries "
-        "itself. "
+        "itself. C09_subcommand_keywords_are_this_calls / C09_subcommand_keywords_default (round 6): the keywords env= / "
+        "defaults= of parse_args are part of the calls (PArgsKw), the answer of the model carries the keywords the "
+        "sub-command action READS from the never-reset parse_kwargs context variable, and for ANY carried state these are "
+        "the keywords of the call itself (or the constant (None, True) a throw-away class parser of the same command line "
+        "stored) — never an earlier call's; the guarded and the repaired theorems compare answers including them. The "
+        "class help without a value (--<cls>.help, also followed by further items) is inside the grammar of the induction. "
         "Only exercised by the correspondence run (not proved about the code): that the model is the code. The run executes "
         "seeded histories of 1-12 calls over two real parsers (config argument, int/str/required options, class-typed, "
         "Callable-typed and dataclass-typed options added by add_argument or from a signature, parse-time links into "
@@ -844,7 +921,11 @@ META = {
         "else is carried, on the generated histories only. Not modelled: values/messages inside answers other than d, "
         "dataclasses with required fields, partial d values left by a --cfg (generator avoids them), nested class-typed "
         "parameters (linked_targets propagation into nested class parsers), links with compute_fn or applied on "
-        "instantiate, parse_args(defaults=False/env=...), default_config_files, ActionParser, "
+        "instantiate, parse_args(env=True) with matching environment variables, parse_args(defaults=False) on parsers with "
+        "links or together with --print_config, class parameters written --<cls>.init_args.<p> (they go through a "
+        "throw-away parser's parse_args), default_config_files (incl. the default swap of the help formatter), "
+        "ActionParser, Union[class, Callable] options with a user-given skip set (unlisted defect "
+        "class-parser-skip-set-shared, fixes/C09-class-parser-skip-set-shared.patch), "
         "nested sub-commands, threads / several contextvars.Context. The model variant (pinned or repaired at each of the "
         "four sites) is selected per run by replaying the four refutation witnesses on the implementation and is recorded in "
         "the evidence (coverage.model_variant). Trusted: Coq kernel/VM, tie/impl/c09_history.py (builder, abstraction, "
